@@ -31,3 +31,13 @@ finally:
     if st.strip():
         print("WARNING: /repo not clean after undo:\n" + st)
 print(json.dumps(res, indent=1))
+# record the outcome next to the seeded change
+d = os.path.dirname(os.path.abspath(patch))
+mp = os.path.join(d, "meta.json")
+meta = json.load(open(mp)) if os.path.exists(mp) else {"breaks_property": props[0], "source": "reverted fix commit (see fix_commit_message.txt)" if "revert-" in d else "?"}
+meta.setdefault("checks_run", {})
+head = subprocess.run(["git", "-C", V, "log", "--format=%h", "-1"], stdout=subprocess.PIPE, text=True).stdout.strip()
+for p, r in res.items():
+    meta["checks_run"]["bin/check %s %s" % (p, tier)] = {"exit": r["rc"], "violation_lines": r["n"], "first": r["first"], "verif_commit": head,
+                                                        "detected": r["rc"] == 1}
+json.dump(meta, open(mp, "w"), indent=1)
